@@ -43,7 +43,50 @@ def gen_sequence(rng, root):
     seq = []
     rid = 100
     n = rng.randrange(4, 12)
+    is_open = {}
     for _ in range(n):
+        if rng.random() < 0.2:
+            # the rest of the server's registered surface: rename, ranged semantic tokens, formatting, didSave,
+            # didChangeConfiguration, didChangeWatchedFiles (files that change or vanish on disk)
+            x = rng.randrange(7)
+            d = rng.choice(docs)
+            if x == 0:
+                rid += 1
+                seq.append(("xreq", d, "textDocument/rename", {"position": {"line": rng.choice([0, 0, 1, 99, 4294967295]), "character": rng.choice([0, 1, 3, 1000, 4294967295])},
+                                                               "newName": rng.choice(["zz", "Zz", "", "a b", "💣", "fn"])}, rid))
+            elif x == 1:
+                rid += 1
+                a = (rng.choice([0, 0, 1, 5, 4294967295]), rng.choice([0, 2, 1000, 4294967295]))
+                b = (rng.choice([0, 1, 2, 99, 4294967295]), rng.choice([0, 1, 7, 4294967295]))
+                seq.append(("xreq", d, "textDocument/semanticTokens/range", {"range": {"start": {"line": a[0], "character": a[1]}, "end": {"line": b[0], "character": b[1]}}}, rid))
+            elif x == 2:
+                rid += 1
+                seq.append(("xreq", d, "textDocument/formatting", {"options": {"tabSize": 2, "insertSpaces": True}}, rid))
+            elif x == 3:
+                seq.append(("xnotif", d, "textDocument/didSave", {"textDocument": {"uri": d.uri}}))
+            elif x == 4:
+                seq.append(("xnotif", d, "workspace/didChangeConfiguration", {"settings": rng.choice([None, {}, {"glas": {"x": [1, "a"]}}, 7])}))
+            else:
+                events = []
+                for _e in range(rng.randrange(1, 4)):
+                    t = rng.randrange(6)
+                    typ = rng.choice([1, 2, 3])
+                    if t == 0:
+                        events.append((rng.choice(["write", "delete", "none"]), "file://" + root + "/src/c.gleam", typ, rand_text(rng)))
+                    elif t == 1:
+                        events.append(("none", "file://" + root + "/src/ghost.gleam", typ, ""))
+                    elif t == 2:
+                        events.append(("none", "file://" + root + rng.choice(["/src", "/free", "", "/gleam.toml"]), typ, ""))
+                    elif t == 3:
+                        events.append(("none", rng.choice(docs[3:4] + docs[5:]).uri, typ, ""))
+                    else:
+                        # a document the editor holds open: events about its file are not the server's business
+                        held = [dd for dd in docs if is_open.get(dd.key) and isinstance(client.get(dd.key), str) and client.get(dd.key) != "FORGOTTEN"]
+                        if held:
+                            events.append(("none", rng.choice(held).uri, typ, ""))
+                if events:
+                    seq.append(("watch", d, events))
+            continue
         k = rng.randrange(10)
         d = rng.choice(docs[:4] + docs[5:]) if rng.random() < 0.85 else docs[4]
         if k < 2 or (d.key not in client and d.key != "f9" and rng.random() < 0.7):
@@ -51,6 +94,7 @@ def gen_sequence(rng, root):
                 continue
             t = rand_text(rng)
             seq.append(("open", d, t))
+            is_open[d.key] = True
             if not d.key.startswith("o"):
                 client[d.key] = t
             continue
@@ -133,6 +177,7 @@ def gen_sequence(rng, root):
             continue
         if k < 7:
             seq.append(("close", d))
+            is_open[d.key] = False
             continue
         rid += 1
         method = rng.choice(["textDocument/hover", "textDocument/definition", "textDocument/completion", "textDocument/references",
@@ -150,6 +195,7 @@ DISK = {"f1": "fn disk_a() { 1 }\n", "f2": "fn disk_b() { 2 }\n"}
 def encode_for_model(seq):
     out = []
     loaded = False
+    c_exists = False
     for op in seq:
         if op[0] == "open":
             if op[1].key in DISK and not loaded:
@@ -166,6 +212,20 @@ def encode_for_model(seq):
             out.append(f"change:{op[1].key}:{'|'.join(cs)}")
         elif op[0] == "close":
             out.append(f"close:{op[1].key}")
+        elif op[0] == "watch":
+            # no document the model tracks is named by an event, but the first CREATED/CHANGED event about an existing
+            # regular file of the package loads the package from disk, like the first didOpen does
+            for (act, uri, typ, text) in op[2]:
+                if uri.endswith("/src/c.gleam") and act != "none":
+                    c_exists = act == "write"
+            for (act, uri, typ, text) in op[2]:
+                exists = (uri.endswith("/src/c.gleam") and c_exists) or uri.endswith("/gleam.toml")
+                if uri.startswith("file://") and typ in (1, 2) and exists and not loaded:
+                    loaded = True
+                    for k, t in DISK.items():
+                        out.append(f"open:{k}:{hexs(t)}")
+        elif op[0] in ("xreq", "xnotif"):
+            continue        # no effect on the documents the model tracks; oracle on the implementation only
         else:
             # semantic tokens carry no position
             l, c = (0, 0) if "semanticTokens" in op[2] else (op[3], op[4])
@@ -201,6 +261,19 @@ def run_sequence(root, docs, seq):
                 c.notify("textDocument/didChange", {"textDocument": {"uri": op[1].uri, "version": n + 2}, "contentChanges": cc})
             elif op[0] == "close":
                 c.notify("textDocument/didClose", {"textDocument": {"uri": op[1].uri}})
+            elif op[0] == "xreq":
+                params = dict(op[3]); params["textDocument"] = {"uri": op[1].uri}
+                pending.append((op[4], c.send_request(op[2], params)))
+            elif op[0] == "xnotif":
+                c.notify(op[2], op[3])
+            elif op[0] == "watch":
+                for (act, uri, typ, text) in op[2]:
+                    path = uri[7:]
+                    if act == "write":
+                        open(path, "w").write(text)
+                    elif act == "delete" and os.path.isfile(path):
+                        os.remove(path)
+                c.notify("workspace/didChangeWatchedFiles", {"changes": [{"uri": uri, "type": typ} for (_, uri, typ, _) in op[2]]})
             else:
                 params = {"textDocument": {"uri": op[1].uri}}
                 if "semanticTokens" not in op[2]:
@@ -264,6 +337,8 @@ def run_c15(res, tier, seed):
             if op[0] == "change":
                 for c in op[2]:
                     kinds[c[2]] = kinds.get(c[2], 0) + 1
+            elif op[0] in ("xreq", "xnotif"):
+                kinds[op[2]] = kinds.get(op[2], 0) + 1
             else:
                 kinds[op[0]] = kinds.get(op[0], 0) + 1
         nchg = sum(1 for op in seq if op[0] == "change")
@@ -273,7 +348,7 @@ def run_c15(res, tier, seed):
                   "texts": obs.get("texts")}
         if not obs["alive"]:
             op = seq[obs["died_at"]] if isinstance(obs["died_at"], int) else None
-            what = "initialize" if op is None else (op[0] + ("/" + "+".join(sorted({c[2] for c in op[2]})) if op[0] == "change" else "") + ("/" + op[1].key[0] if op is not None else ""))
+            what = "initialize" if op is None else (op[2] + "/" + op[1].key[0]) if op[0] in ("xreq", "xnotif") else (op[0] + ("/" + "+".join(sorted({c[2] for c in op[2]})) if op[0] == "change" else "") + ("/" + op[1].key[0] if op is not None else ""))
             res.add_violation("C15/server-died/" + what, f"the server process ended after message {obs['died_at']} ({what}): {obs.get('stderr', '')[-200:]}", replay)
             continue
         for rid, v in obs["responses"].items():
@@ -318,7 +393,8 @@ def run_c15(res, tier, seed):
     res.cov["rule"] = (f"{n_seq} seeded message sequences (4-11 messages) over 5 documents (two files of a package, a free-standing file, an "
                        "untitled: document, a never-opened file) driven against the real binary over stdio: didOpen, didChange with 1-3 changes "
                        "(valid, full-text, reversed, line beyond, column beyond, huge values, inside a surrogate pair), didClose, 8 kinds of "
-                       "requests at valid and invalid positions; a liveness probe after every message; final text of every document read back "
+                       "requests at valid and invalid positions, rename / ranged semantic tokens / formatting requests, didSave, didChangeConfiguration, "
+                       "didChangeWatchedFiles (a package file rewritten or deleted on disk, a missing file, directories, non-file URIs, files the editor holds open); a liveness probe after every message; final text of every document read back "
                        "through glas/syntaxTree. non-trivial = at least two didChange and one request")
     res.cov["samples"] += [{"sequence": [describe(op) for op in jobs[i][2]][:6], "model": mo[i][:200]} for i in (0, 1)]
 
@@ -386,6 +462,12 @@ def describe(op):
         return f"didChange {op[1].key} " + "; ".join(f"{c[2]} {c[0]} {c[1]!r}" for c in op[2])
     if op[0] == "close":
         return f"didClose {op[1].key}"
+    if op[0] == "xreq":
+        return f"{op[2]} {op[1].key} {json.dumps(op[3])} id={op[4]}"
+    if op[0] == "xnotif":
+        return f"{op[2]} {json.dumps(op[3])[:120]}"
+    if op[0] == "watch":
+        return "didChangeWatchedFiles " + "; ".join(f"{act} {uri.split('/')[-1] or uri} type={typ}" for (act, uri, typ, _) in op[2])
     return f"{op[2]} {op[1].key} ({op[3]},{op[4]}) id={op[5]}"
 
 
